@@ -67,3 +67,74 @@ Qed.
 (* errors only accumulate: once a mismatch is recorded the aggregation fails *)
 Lemma add_criterion_errors_grow src acc c e : In e (snd acc) -> In e (snd (add_criterion src acc c)).
 Proof. destruct acc as [cs errs]. rewrite add_criterion_errors. intros H. apply in_app_iff. left. exact H. Qed.
+
+(* ---- the merged criteria table defines every source criterion as its source does ---- *)
+Definition defined_as (cs : list agg_crit) (c : agg_crit) : Prop :=
+  exists m, In m cs /\ ac_name m = ac_name c /\ same_def m c = true.
+
+Lemma same_def_refl_new src c :
+  same_def {| ac_name := ac_name c; ac_desc := ac_desc c; ac_url := ac_url c; ac_implies := ac_implies c; ac_from := ac_from c ++ [src] |} c = true.
+Proof.
+  unfold same_def. cbn. assert (O : forall o, optN_eq o o = true) by (intros [x|]; cbn; [apply N.eqb_refl|reflexivity]).
+  rewrite !O. cbn. induction (ac_implies c) as [|x l IH]; cbn; [reflexivity|]. rewrite N.eqb_refl. exact IH.
+Qed.
+
+Lemma add_criterion_keeps src cs errs c d : defined_as cs d -> defined_as (fst (add_criterion src (cs, errs) c)) d.
+Proof.
+  intros [m [Hm [Hn Hs]]]. unfold add_criterion. destruct (find _ cs); cbn [fst]; [exists m; auto|].
+  exists m. split; [apply in_or_app; left; exact Hm|auto].
+Qed.
+
+Lemma add_criterion_defines src cs errs c :
+  snd (add_criterion src (cs, errs) c) = errs -> defined_as (fst (add_criterion src (cs, errs) c)) c.
+Proof.
+  rewrite add_criterion_errors. unfold add_criterion. destruct (find (fun o => N.eqb (ac_name o) (ac_name c)) cs) as [o|] eqn:F; cbn [fst].
+  - intros E. apply find_some in F. destruct F as [Ho Hn]. apply N.eqb_eq in Hn. exists o. split; [exact Ho|]. split; [exact Hn|].
+    assert (E' : (if optN_eq (ac_desc o) (ac_desc c) && optN_eq (ac_url o) (ac_url c) then [] else [DescriptionMismatch (ac_name c)])
+                 ++ (if list_eqb (ac_implies o) (ac_implies c) then [] else [ImpliesMismatch (ac_name c)]) = []).
+    { rewrite <- (app_nil_r errs) in E at 2. apply app_inv_head in E. exact E. }
+    unfold same_def. destruct (optN_eq (ac_desc o) (ac_desc c) && optN_eq (ac_url o) (ac_url c)); [|discriminate].
+    destruct (list_eqb (ac_implies o) (ac_implies c)); [reflexivity|discriminate].
+  - intros _. eexists. split; [apply in_or_app; right; left; reflexivity|]. split; [reflexivity|apply same_def_refl_new].
+Qed.
+
+Lemma add_criterion_errs_prefix src cs errs c : exists more, snd (add_criterion src (cs, errs) c) = errs ++ more.
+Proof. rewrite add_criterion_errors. eexists. reflexivity. Qed.
+
+Lemma fold_criteria_spec src l : forall cs errs,
+  snd (fold_left (add_criterion src) l (cs, errs)) = [] ->
+  errs = [] /\ (forall d, defined_as cs d -> defined_as (fst (fold_left (add_criterion src) l (cs, errs))) d) /\
+  (forall c, In c l -> defined_as (fst (fold_left (add_criterion src) l (cs, errs))) c).
+Proof.
+  induction l as [|c l IH]; intros cs errs H; cbn [fold_left] in *.
+  - cbn in H. subst. repeat split; auto. intros c [].
+  - destruct (add_criterion src (cs, errs) c) as [cs1 errs1] eqn:E.
+    destruct (IH cs1 errs1 H) as [E1 [K1 K2]]. subst errs1.
+    destruct (add_criterion_errs_prefix src cs errs c) as [more Em]. rewrite E in Em. cbn [snd] in Em.
+    symmetry in Em. apply app_eq_nil in Em. destruct Em as [-> ->].
+    split; [reflexivity|]. split.
+    + intros d Hd. apply K1. pose proof (add_criterion_keeps src cs [] c d Hd) as X. rewrite E in X. exact X.
+    + intros c' [<-|Hc']; [|apply K2; exact Hc'].
+      apply K1. pose proof (add_criterion_defines src cs [] c) as X. rewrite E in X. cbn [fst snd] in X. apply X. reflexivity.
+Qed.
+
+Theorem aggregate_defines_every_source_criterion sources :
+  snd (aggregate sources) = [] ->
+  forall src f c, In (src, f) sources -> In c (af_criteria f) -> defined_as (af_criteria (fst (aggregate sources))) c.
+Proof.
+  unfold aggregate. cbn [fst snd af_criteria].
+  assert (G : forall l cs errs,
+     snd (fold_left (fun acc '(src, f) => fold_left (add_criterion src) (af_criteria f) acc) l (cs, errs)) = [] ->
+     errs = [] /\ (forall d, defined_as cs d -> defined_as (fst (fold_left (fun acc '(src, f) => fold_left (add_criterion src) (af_criteria f) acc) l (cs, errs))) d) /\
+     (forall src f c, In (src, f) l -> In c (af_criteria f) ->
+        defined_as (fst (fold_left (fun acc '(src, f) => fold_left (add_criterion src) (af_criteria f) acc) l (cs, errs))) c)).
+  { induction l as [|[src f] l IH]; intros cs errs H; cbn [fold_left] in *.
+    - cbn in H. subst. repeat split; auto. intros ? ? ? [].
+    - destruct (fold_left (add_criterion src) (af_criteria f) (cs, errs)) as [cs1 errs1] eqn:E.
+      destruct (IH cs1 errs1 H) as [E1 [K1 K2]]. subst errs1.
+      assert (X : snd (fold_left (add_criterion src) (af_criteria f) (cs, errs)) = []) by (rewrite E; reflexivity).
+      destruct (fold_criteria_spec src (af_criteria f) cs errs X) as [-> [L1 L2]]. rewrite E in L1, L2. cbn [fst] in L1, L2.
+      split; [reflexivity|]. split; [intros d Hd; apply K1; apply L1; exact Hd|].
+      intros src' f' c [Eq|Hin] Hc; [inversion Eq; subst; apply K1; apply L2; exact Hc|eapply K2; eauto]. }
+  intros H src f c Hin Hc. destruct (G sources [] [] H) as [_ [_ K]]. eapply K; eauto.
+Qed.
